@@ -141,7 +141,17 @@ func (s Schema) Base() Schema {
 	return s
 }
 
+// throughAliases - a reference to a component that is rendered as a Go type alias ('type A = T') is a
+// reference to its target: the alias has the target's methods, not conversion methods of its own.
+func (s Schema) throughAliases() Schema {
+	for s.Ref != nil && s.Ref.isAlias() && s.Ref.Schema.Ref != nil {
+		s = s.Ref.Schema
+	}
+	return s
+}
+
 func (s Schema) RenderToBaseType(to, from string) (string, error) {
+	s = s.throughAliases()
 	if s.Ref != nil {
 		return ExecuteTemplate("Schema_RenderToBaseType_Ref", TData{
 			"To":   to,
@@ -240,6 +250,7 @@ func (s Schema) IsCustom() bool {
 }
 
 func (s Schema) ParseString(to, from string, isNew bool, mkErr ErrorRender) (string, error) {
+	s = s.throughAliases()
 	if s.Ref != nil {
 		if s.Ref.Schema.IsCustom() {
 			return s.Ref.Schema.ParseString(to, from, isNew, mkErr)
@@ -266,6 +277,7 @@ func (s Schema) ParseString(to, from string, isNew bool, mkErr ErrorRender) (str
 }
 
 func (s Schema) ParseStrings(to, from string, isNew bool, mkErr ErrorRender) (string, error) {
+	s = s.throughAliases()
 	if s.Ref != nil {
 		if s.Ref.Schema.IsCustom() {
 			return s.Ref.Schema.ParseStrings(to, from, isNew, mkErr)
@@ -308,6 +320,7 @@ func (s Schema) ParseStrings(to, from string, isNew bool, mkErr ErrorRender) (st
 }
 
 func (s Schema) RenderFormat(from string) (string, error) {
+	s = s.throughAliases()
 	if s.Ref != nil {
 		isStruct := s.Ref.Schema.Kind() == SchemaKindObject
 		isArray := s.Ref.Schema.Kind() == SchemaKindArray
@@ -327,6 +340,7 @@ func (s Schema) RenderFormat(from string) (string, error) {
 }
 
 func (s Schema) RenderFormatStrings(to, from string, isNew bool) (string, error) {
+	s = s.throughAliases()
 	if s.Ref != nil {
 		if !s.Ref.Schema.IsCustom() {
 			from = from + "." + s.Ref.Schema.FuncTypeName() + "()"
